@@ -9,6 +9,8 @@ import PintModel.Model.Quantity
 import PintModel.Model.Pi
 import PintModel.Model.EvalTree
 import PintModel.Gen.EvalTables
+import PintModel.Model.Format
+import PintModel.Gen.FormatTables
 import PintModel.Gen.DefaultRegistry
 
 open Lean
@@ -242,6 +244,35 @@ def stepTree (j : Json) : Json :=
     | none => badJ "tree: tokens"
   | none => badJ "tree: tokens"
 
+
+/-! ### formatting (C09) -/
+
+def stepFormat (R0 : Registry) (j : Json) : Json :=
+  match fStr j "f" with
+  | some "unit" =>
+    match fUC j "u", fStr j "spec" with
+    | some u, some spec =>
+      let R := registerKeys R0 u
+      match Fmt.getStyle Gen.formatOrder Gen.styles spec with
+      | none => Json.mkObj [("err", Json.str "NoStyle")]
+      | some st =>
+        match Fmt.formatUnit R st u spec with
+        | some s => okJ (Json.str s)
+        | none => errJ .inexact
+    | _, _ => badJ "format unit: u/spec"
+  | some "split" =>
+    match fStr j "spec", fStr j "default" with
+    | some spec, some dflt =>
+      let sep := fBool j "separate"
+      let (m, u) := Fmt.splitFormat Gen.formatFlags spec dflt sep
+      okJ (Json.arr #[Json.str m, Json.str u])
+    | _, _ => badJ "format split: spec/default"
+  | some "join_mu" =>
+    match fStr j "joint", fStr j "m", fStr j "u" with
+    | some jn, some m, some u => okJ (Json.str (Fmt.joinMu jn m u))
+    | _, _, _ => badJ "join_mu"
+  | _ => badJ "format: f"
+
 /-! ### registry queries (C01, C02, C08) -/
 
 def stepReg (st : DriverState) (op : String) (j : Json) : DriverState × Json :=
@@ -334,6 +365,7 @@ def step (st : DriverState) (j : Json) : DriverState × Json :=
   | some "q" => (st, stepQty st.reg j)
   | some "pi" => (st, stepPi j)
   | some "tree" => (st, stepTree j)
+  | some "format" => (st, stepFormat st.reg j)
   | some op => stepReg st op j
 
 end Pint
